@@ -1,6 +1,6 @@
 import Copia.Props.C02
 import Copia.Props.C06
-import Copia.Lemmas.Bisync16
+import Copia.Lemmas.Bisync18
 /-!
 # C02 / C06 — the whole-run theorems under the WEAKER hypothesis `BenignClash`
 
@@ -53,16 +53,21 @@ open Copia.Reconcile Copia.Bisync
 
 variable {P C : Type} [DecidableEq P] [DecidableEq C]
 
-/-- C06 (convergence of the trees, whole run, under BenignClash) -/
+/-- C06 (whole run under BenignClash): the run completes, both sides hold the same thing at every path, and the archive
+it writes records exactly that tree -/
 theorem converges_benign (le : P → P → Bool)
     (trans : ∀ a b c, le a b → le b c → le a c) (total : ∀ a b, le a b || le b a)
     (antisymm : ∀ a b, le a b → le b a → a = b) (ge : C → C → Bool) (cname : P → C → P) (s : State P C)
     (bc : BenignClash ge cname s.A s.B (bisyncPlan le s)) :
     (bisync le ge cname s).status ≠ .ioError ∧
-    ∀ q, get (bisync le ge cname s).state.A q = get (bisync le ge cname s).state.B q := by
+    (∀ q, get (bisync le ge cname s).state.A q = get (bisync le ge cname s).state.B q) ∧
+    ∃ m, (bisync le ge cname s).state.arch = some m ∧
+      ∀ q, lookup m q = (get (bisync le ge cname s).state.A q).map mkFp := by
   obtain ⟨hact, _, _, hrest⟩ := plan_facts le trans total antisymm s
-  obtain ⟨hstat, l, inv, eA, eB⟩ := bisync_runB le trans total antisymm ge cname s bc
-  rw [eA, eB]
-  exact ⟨hstat, runInvB_converged ge cname s.A s.B (baseOf s) _ l hact hrest inv⟩
+  obtain ⟨l, n, hrun, inv, ainv⟩ := bisync_runAB le trans total antisymm ge cname s bc
+  rw [bisync_of_run le ge cname s l n hrun]
+  refine ⟨by simp only []; split <;> simp, ?_, l.common, rfl, ?_⟩
+  · exact runInvB_converged ge cname s.A s.B (baseOf s) _ l hact hrest inv
+  · exact arch_eq_treeB le trans total antisymm ge cname s l inv ainv
 
 end Copia.C06
